@@ -15,7 +15,7 @@ def run(idx, rep, tier):
         "lower and adds it to the upper bounds of the inner box. R-AXIS: the distinguished axis index agrees across support, "
         "AABB, containment test and collider methods. R-FRAME / R-FRAMERET (engine E2): all *_aabb functions and collider "
         "aabb() methods are frame consistent and return world-frame bounds. R-WORLDAABB: RigidBody.aabb must apply "
-        "body2origin_. R-SQRTDOMAIN: the radicands of the closed-form extents (1 - c^2 of a rotation entry) are clamped at 0, so a pose that is orthonormal only to one ulp cannot produce a NaN box. R-INVALIDATE: RigidBody methods that reassign vertices / pose data reset the caches aabb() reads. R-DEGREE (engine E3): every extent is homogeneous of degree 1. Enclosure and tightness of the closed "
+        "body2origin_. R-SQRTDOMAIN: the radicands of the closed-form extents (1 - c^2 of a rotation entry) are clamped at 0, so a pose that is orthonormal only to one ulp cannot produce a NaN box. R-ROUNDTRIP: a radicand that vanishes for axis-aligned poses is not fed by a term recovered through cancellation ((p + h*axis) - p), whose rounding the square root would amplify beyond the tightness tolerance. R-INVALIDATE: RigidBody methods that reassign vertices / pose data reset the caches aabb() reads. R-DEGREE (engine E3): every extent is homogeneous of degree 1. Enclosure and tightness of the closed "
         "forms (e.g. the rotated-ellipsoid extent) are numerical and NOT decided.")
     rep.assumptions = DOMAIN_D
     colliders.r_aabbargs(idx, rep)
@@ -28,6 +28,7 @@ def run(idx, rep, tier):
     frame.r_worldaabb(idx, rep)
     colliders.r_coherence(idx, rep, relevant_to="aabb")      # 'every collider' includes colliders that were moved with update_pose
     safediv.r_sqrtdomain(idx, rep, modules=["distance3d.containment"], floor=4, unknown_ceiling=2, sqrt_calls=("np.sqrt", "math.sqrt"))
+    safediv.r_roundtrip(idx, rep, modules=["distance3d.containment"], floor=3)
     hydro.r_invalidate(idx, rep, relevant_to="aabb", floor=2)      # RigidBody.aabb() is the root box of a cached tree
     degree.r_degree(idx, rep, modules=sorted(MODS), floor=20)
     purity.r_pureargs(idx, rep, ["distance3d.containment", "distance3d.colliders", "distance3d.utils"], floor=10)
